@@ -132,7 +132,7 @@ func runLifecycle(b Beh, seed int64) ([]J, error) {
 				c.Close()
 				if err == nil {
 					ok = true
-				} else if err != ref.ErrRedraw {
+				} else if err != ref.ErrRedraw && err != ref.ErrRedrawB {
 					o["err"] = err.Error()
 					break
 				}
